@@ -94,7 +94,8 @@ def _load_bank(prop):
                 continue
             meta = json.load(open(mp))
             if twin or meta.get('property') == prop:
-                out.append({'id': name, 'kind': 'patch', 'patch': os.path.join(d, name, 'patch.diff'), 'twin': twin})
+                out.append({'id': name, 'kind': 'patch', 'patch': os.path.join(d, name, 'patch.diff'), 'twin': twin,
+                            'not_analysable': bool(meta.get('not_analysable'))})
     return out
 
 
@@ -148,6 +149,10 @@ def run_bank(prop, root):
                 res['mutants'] += 1
                 if status == 'fired':
                     res['caught'] += 1
+                elif status == 'error' and m.get('not_analysable'):
+                    # a recorded limit of the analysis: the change re-represents the state the rule reasons about; the
+                    # check answers "cannot analyse" (exit 2), which is not a pass - listed, not hidden
+                    res.setdefault('mutants_not_analysable', []).append('%s: %s' % (m['id'], info))
                 else:
                     problems.append('mutant %s not reported: %s %s' % (m['id'], status, info))
             res['details'].append('%s: %s %s' % (m['id'], status, info))
